@@ -611,4 +611,59 @@ Section ServerInv2.
     intros Ht Hs Hin size' ch' s'' out' Hs'.
     exact (C07_replay_inert_forever _ _ _ _ _ _ _ _ _ Ht Hs Hin [] s' [] eq_refl src size' m ch' s'' out' eq_refl Hs').
   Qed.
+  (* a transaction enters the pending set only when a query is started, keyed by the destination
+     the query datagram is sent to and by the transaction id that datagram carries *)
+  Theorem C07_registered s e ch s' out x :
+    step s e ch = SR Store s' out -> In x (s_pending s') -> ~ In x (s_pending s) ->
+    exists qid dst q a rated t,
+      e = EQueryStart qid dst q a rated t /\ x = mkTxn (addr_key dst) t qid /\
+      s_closed s = false /\ blocked (s_blocklist s) (ip dst) = false /\
+      out = [ESend dst (query_msg cfg q a t) SQuery].
+  Proof.
+    intros Hs Hx Hn.
+    assert (Hsame : s_pending s' = s_pending s -> False) by (intros E; apply Hn; rewrite <- E; exact Hx).
+    destruct e as [src size dec|d|i p id|qid dst q a rated t|qid|a id|bl|].
+    - exfalso. apply step_packet_cases in Hs.
+      destruct Hs as [(-> & _)|[(m0 & _ & _ & _ & Hq)|(m0 & x0 & _ & _ & _ & _ & Hpe & _ & _)]].
+      + apply Hsame; reflexivity.
+      + apply handle_query_frame in Hq. destruct Hq as (Hp & _). apply Hsame; exact Hp.
+      + apply Hn. rewrite Hpe in Hx. eapply remove_first_In; exact Hx.
+    - exfalso. unfold Server.step in Hs. inversion Hs; subst. apply Hsame; reflexivity.
+    - exfalso. unfold Server.step in Hs.
+      destruct (update_node _ _ _ _ _ _) as [[s1 r]|] eqn:Hu; [|discriminate].
+      apply update_node_frame in Hu. destruct Hu as (_ & U2 & _).
+      destruct r; try discriminate; inversion Hs; subst; apply Hsame; exact U2.
+    - revert Hs. unfold Server.step. cbv zeta.
+      assert (Hbump : forall o, SR Store (with_pending Store s (s_pending s) (N.succ (s_next_t s))) o = SR Store s' out -> False).
+      { intros o H; inversion H; subst. apply Hsame; reflexivity. }
+      destruct (s_closed s) eqn:Hcl; [intros H; exfalso; exact (Hbump _ H)|].
+      destruct (blocked _ _) eqn:Hbl; [intros H; exfalso; exact (Hbump _ H)|].
+      destruct (rated && _); [intros H; exfalso; exact (Hbump _ H)|].
+      destruct (uvarint_decode t) as [n|] eqn:Hdec; [|discriminate].
+      destruct (N.ltb n (s_next_t s)); [discriminate|].
+      destruct (existsb _ _); [discriminate|].
+      assert (Hadd : forall s1, s_pending s1 = s_pending s ++ [mkTxn (addr_key dst) t qid] ->
+                SR Store s1 [ESend dst (query_msg cfg q a t) SQuery] = SR Store s' out ->
+                exists qid0 dst0 q0 a0 rated0 t0,
+                  EQueryStart qid dst q a rated t = EQueryStart qid0 dst0 q0 a0 rated0 t0 /\
+                  x = mkTxn (addr_key dst0) t0 qid0 /\ false = false /\
+                  blocked (s_blocklist s) (ip dst0) = false /\
+                  out = [ESend dst0 (query_msg cfg q0 a0 t0) SQuery]).
+      { intros s1 Hp H; inversion H; subst. exists qid, dst, q, a, rated, t.
+        rewrite Hp in Hx. apply in_app_or in Hx. destruct Hx as [Hx|[Hx|[]]]; [contradiction|].
+        repeat split; [symmetry; exact Hx|exact Hbl]. }
+      destruct rated.
+      + cbn [with_pending Server.s_budget]. destruct (s_budget s) as [[|b]|];
+          [intros H; exfalso; exact (Hbump _ H)| |]; apply Hadd; reflexivity.
+      + apply Hadd; reflexivity.
+    - exfalso. unfold Server.step in Hs.
+      destruct (existsb _ _); [|inversion Hs; subst; apply Hsame; reflexivity].
+      inversion Hs; subst. cbn [with_pending Server.s_pending] in Hx. apply filter_In in Hx. tauto.
+    - exfalso. unfold Server.step in Hs.
+      destruct (update_node _ _ _ _ _ _) as [[s1 r]|] eqn:Hu; [|discriminate].
+      apply update_node_frame in Hu. destruct Hu as (_ & U2 & _).
+      inversion Hs; subst; apply Hsame; exact U2.
+    - exfalso. unfold Server.step in Hs. inversion Hs; subst. apply Hsame; reflexivity.
+    - exfalso. unfold Server.step in Hs. inversion Hs; subst. apply Hsame; reflexivity.
+  Qed.
 End ServerInv2.
